@@ -35,7 +35,7 @@ func init() {
 		Header:   seenHeader,
 		CaseType: "ccase",
 		Footer:   "\nDefinition DIFF := Eval vm_compute in cdiffs cases.\nPrint DIFF.\nDefinition MON := Eval vm_compute in cmons cases.\nPrint MON.\n",
-		Rule:     "one case = phase A records two pools of URLs (sequential, returned), phase B releases G = 4..16 goroutines together, each calling the real seencheck.SeencheckItem (or the real preprocess) on its own tree of 60..400 working nodes mixing recorded URLs (shared read-only between goroutines; in redirect trees the tree's own slice of a pool recorded as asset only, checked as seed) with URLs private to the tree, phase C re-checks a sample of everything; distinct by input text; non-trivial when G >= 4 and phase B has both recorded and private URLs in at least two trees",
+		Rule:     "one case = phase A records two pools of URLs (sequential, returned), phase B releases G = 4..12 (thorough: ..16) goroutines together, each calling the real seencheck.SeencheckItem (or the real preprocess) on its own tree of 60..400 working nodes mixing recorded URLs (shared read-only between goroutines; in redirect trees the tree's own slice of a pool recorded as asset only, checked as seed) with URLs private to the tree, phase C re-checks a sample of everything; distinct by input text; non-trivial when G >= 4 and phase B has both recorded and private URLs in at least two trees",
 		Setup:    setupSeen,
 		Gen:      genSeenConc,
 		Exec:     execSeenConc,
@@ -280,21 +280,24 @@ func bucketK(n int) int {
 }
 
 func genSeenConc(r *Rng, i int, tier string) string {
-	g := 4 + r.Intn(13)
+	g := 4 + r.Intn(9)
+	if tier == "thorough" && r.Chance(30) {
+		g = 12 + r.Intn(5)
+	}
 	op := "C"
 	if r.Chance(35) {
 		op = "P"
 	}
-	r1 := 100 + r.Intn(300)
+	r1 := 100 + r.Intn(200)
 	r2 := 0
 	if r.Chance(60) {
-		r2 = 40 + r.Intn(200)
+		r2 = 40 + r.Intn(120)
 	}
 	share := 30 + r.Intn(r1-30)
-	if share > 250 {
-		share = 250
+	if share > 150 {
+		share = 150
 	}
-	priv := 30 + r.Intn(150)
+	priv := 30 + r.Intn(100)
 	if tier == "thorough" && r.Chance(30) {
 		priv += 200
 	}
